@@ -1,11 +1,12 @@
-from ipv import Unit, Ob
+import os
+from ipv import Unit, Ob, VERIF
+from gen import insert_stubs
 
 def build(tier, seed):
     TBL = 'ipr::util::rb_tree::container<ipr::impl::Basic_binary<ipr::impl::Composite<ipr::Qualified>>>::'
     u = Unit('qualified', '/repo/src/impl.cxx', roots=['ipr::impl::type_factory::get_qualified'],
              vroots=['ipr::Basic_binary<ipr::Qualifiers, const ipr::Type &>::first', 'ipr::Basic_binary<ipr::Qualifiers, const ipr::Type &>::second'],
-             names=dict(get_qualified='ipr::impl::type_factory::get_qualified', insert=TBL + 'insert', make_node=TBL + 'make_node',
-                        cmp_elem_key=('ipr::impl::binary_compare::operator()', 'Qualified'),
+             names=dict(get_qualified='ipr::impl::type_factory::get_qualified', make_node=TBL + 'make_node',
                         qual_ctor=('ipr::impl::Basic_binary<ipr::impl::Composite<ipr::Qualified>>::Basic_binary', 'Rep'),
                         first='ipr::Basic_binary<ipr::Qualifiers, const ipr::Type &>::first', second='ipr::Basic_binary<ipr::Qualifiers, const ipr::Type &>::second'))
     H = 'C11/qualified.c'
@@ -14,8 +15,13 @@ def build(tier, seed):
            kind='K1', flags=['--unwind', '4'], replay='C11'),
         Ob('C11.cmp_order', u, H, 'h_cmp_order', 'binary_compare at (Qualifiers, Type) keys is a three-way total order with zero set = key equality (three symbolic keys)', kind='K3', replay='C11'),
     ]
+    def gen(unit):
+        stubs, skipped, info = insert_stubs(unit)
+        if len(info) != 1:
+            raise Exception('expected exactly one table in get_qualified')
+        return stubs + open(os.path.join(VERIF, 'harness', H)).read(), skipped, info
     for o in obs:
-        o.skip = ['@{insert}']
+        o.gen = gen
     meta = dict(sweep_family='C11', functions_under_contract=['get_qualified', 'cmp_elem_key', 'qual_ctor', 'make_node', 'first', 'second'],
                 assumptions=['rb_tree::container<impl::Qualified>::insert through the contract of harness/insert_stub.h (established by C08 for the template body; L-tree, L-order)',
                              'operand types are arbitrary nodes; qualified operands are nodes built by the real constructor and are in normal form (table invariant, L-history)',
